@@ -170,11 +170,16 @@ class Check:
 
     # ---- known findings ----------------------------------------------------------------
     def _load_known(self):
-        p = os.path.join(VERIF, "known_findings.json")
-        if not os.path.exists(p):
-            return []
-        with open(p) as f:
-            return [e for e in json.load(f)["findings"] if e["property"] == self.pid]
+        out = []
+        paths = [os.path.join(VERIF, "known_findings.json")]
+        d = os.path.join(VERIF, "known_findings.d")
+        if os.path.isdir(d):
+            paths += [os.path.join(d, f) for f in sorted(os.listdir(d)) if f.endswith(".json")]
+        for p in paths:
+            if os.path.exists(p):
+                with open(p) as f:
+                    out += [e for e in json.load(f)["findings"] if e["property"] == self.pid]
+        return out
 
     def known_open(self, key):
         for e in self._kf:
@@ -225,7 +230,6 @@ class Check:
         """Build coq/theories/<subdir>/*.v (make, full .vo) then re-compile Properties.v to
         collect `Print Assumptions`.  extra_gen: generated .v files (absolute paths, logical
         names under QVgen) compiled with coqc before Properties.v."""
-        ensure_makefile()
         tdir = os.path.join(COQ, "theories", subdir)
         src_hits = []
         for fn in sorted(os.listdir(tdir)) + [None]:
@@ -243,14 +247,10 @@ class Check:
         if src_hits:
             self.proof_ok = False
             self.proof_log += "forbidden constructs: " + "; ".join(src_hits) + "\n"
-        targets = []
-        for fn in sorted(os.listdir(tdir)):
-            if fn.endswith(".v") and fn != "Properties.v":
-                targets.append("theories/%s/%so" % (subdir, fn))
         t0 = time.time()
-        rc, out = sh(["timeout", "1500", "make", "-C", COQ, "-j%d" % NPROC] + targets,
-                     timeout=1600, env=self.coq_env())
-        if rc != 0:
+        ok, out = build_vo([os.path.join(tdir, fn) for fn in sorted(os.listdir(tdir))
+                            if fn.endswith(".v") and fn != "Properties.v"])
+        if not ok:
             self.proof_ok = False
             self.proof_log += out[-4000:]
         for g in extra_gen:
@@ -448,29 +448,109 @@ def _parse_assumptions(out):
     return blocks
 
 
-def ensure_makefile():
-    mk = os.path.join(COQ, "Makefile")
-    cp = os.path.join(COQ, "_CoqProject")
-    write_coqproject()
-    if not os.path.exists(mk) or os.path.getmtime(mk) < os.path.getmtime(cp):
-        rc, out = sh(["coq_makefile", "-f", "_CoqProject", "-o", "Makefile"], cwd=COQ)
-        if rc != 0:
-            raise RuntimeError(out)
-
-
-def write_coqproject():
+def _coqdep():
+    """file.v -> list of .v files under coq/theories it depends on (via coqdep)."""
     files = []
     for root, _, fns in os.walk(os.path.join(COQ, "theories")):
         for fn in fns:
             if fn.endswith(".v"):
                 files.append(os.path.relpath(os.path.join(root, fn), COQ))
-    files.sort()
-    text = "-Q theories QV\n-Q gen QVgen\n" + "\n".join(files) + "\n"
-    cp = os.path.join(COQ, "_CoqProject")
+    rc, out = sh(["coqdep", "-Q", "theories", "QV", "-Q", "gen", "QVgen"] + sorted(files), cwd=COQ)
+    deps = {}
+    for line in out.splitlines():
+        if ":" not in line:
+            continue
+        lhs, rhs = line.split(":", 1)
+        tgt = [t for t in lhs.split() if t.endswith(".vo")]
+        if not tgt:
+            continue
+        v = tgt[0][:-1]
+        deps[os.path.normpath(v)] = [os.path.normpath(d[:-1]) for d in rhs.split()
+                                     if d.endswith(".vo") and not d.startswith("/")]
+    return deps
+
+
+def build_vo(abs_files, force=False):
+    """Minimal make: compile the given .v files (and, first, whatever they depend on under
+    coq/theories) with `coqc` when the .vo is missing or older than the source or a dependency.
+    A full .vo build (never -vos).  Returns (ok, log)."""
+    import fcntl
     os.makedirs(os.path.join(COQ, "gen"), exist_ok=True)
-    if not os.path.exists(cp) or open(cp).read() != text:
-        with open(cp, "w") as f:
-            f.write(text)
+    deps = _coqdep()
+    log = []
+    done = {}
+
+    def mtime(p):
+        try:
+            return os.path.getmtime(os.path.join(COQ, p))
+        except OSError:
+            return 0.0
+
+    def need(v):
+        vo = v + "o"
+        if mtime(vo) == 0.0 or mtime(vo) < mtime(v):
+            return True
+        return any(mtime(d + "o") > mtime(vo) for d in deps.get(v, []))
+
+    def build(v, stack=()):
+        if v in done:
+            return done[v]
+        if v in stack:
+            done[v] = False
+            log.append("dependency cycle at " + v)
+            return False
+        okd = all([build(d, stack + (v,)) for d in deps.get(v, [])])
+        if not okd:
+            done[v] = False
+            return False
+        if force or need(v):
+            lock = open(os.path.join(COQ, v + ".lock"), "w")
+            try:
+                fcntl.flock(lock, fcntl.LOCK_EX)
+                if force or need(v):
+                    rc, out = sh(["timeout", "1500", "coqc", "-Q", "theories", "QV", "-Q", "gen", "QVgen", v],
+                                 cwd=COQ, timeout=1600)
+                    if rc != 0:
+                        log.append("coqc %s failed:\n%s" % (v, out[-3000:]))
+                        done[v] = False
+                        return False
+            finally:
+                fcntl.flock(lock, fcntl.LOCK_UN)
+                lock.close()
+                try:
+                    os.unlink(os.path.join(COQ, v + ".lock"))
+                except OSError:
+                    pass
+        done[v] = True
+        return True
+
+    ok = True
+    for f in abs_files:
+        ok = build(os.path.normpath(os.path.relpath(f, COQ))) and ok
+    return ok, "\n".join(log)
+
+
+def build_all():
+    """setup: build every theory directory (in parallel across directories)."""
+    tdirs = sorted(d for d in os.listdir(os.path.join(COQ, "theories"))
+                   if os.path.isdir(os.path.join(COQ, "theories", d)))
+    ok, out = build_vo([os.path.join(COQ, "theories", "Lib", f)
+                        for f in sorted(os.listdir(os.path.join(COQ, "theories", "Lib"))) if f.endswith(".v")])
+    if not ok:
+        print(out)
+        return 1
+
+    def one(d):
+        return d, build_vo([os.path.join(COQ, "theories", d, f)
+                            for f in sorted(os.listdir(os.path.join(COQ, "theories", d))) if f.endswith(".v")])
+    rc = 0
+    with ThreadPoolExecutor(max_workers=NPROC) as ex:
+        for d, (ok, out) in ex.map(one, tdirs):
+            print("%-8s %s" % (d, "ok" if ok else "FAILED"))
+            if not ok:
+                print(out)
+                rc = 1
+    return rc
 
 
 def repo_python_env():
